@@ -27,7 +27,11 @@
       [quantify], [compose], [rename], [cube], [copy_bdd], [image],
       [preimage], [find_or_add] return a node WITHOUT taking a reference for
       the caller; [swap], [reorder], [reorder_to_pairs], dynamic reordering,
-      [add_var], [declare], [undeclare_vars], [configure] keep the ledger.
+      [add_var], [declare], [undeclare_vars], [configure] keep the ledger;
+      so does the assignment [bdd.max_nodes = n] ([OSetMaxNodes n], in both
+      alphabets), and a call refused with [RuntimeError] ([ERuntime]) because
+      the table is full leaves the ledger alone, as every failed call does
+      (example [C06_ledger_example_full_outs]).
     No operation of either alphabet fails to preserve the ledger so defined.
 
     Only statements closed by [exact]; proofs live in [Proofs/Ledger.v]. *)
@@ -405,6 +409,52 @@ Example C06_ledger_example_exact :
   (∀ n, n ∉ dom (succ sF) →
      ledger_init n + increfs w1 0 ledger_ops n = decrefs w1 0 ledger_ops n).
 Proof. exact ledger_example_exact. Qed.
+
+(** a bounded table: [bdd.max_nodes = 4], the conjunction of the two
+    variables needs a fourth node and raises [RuntimeError]; [incref] of the
+    node that was not made fails with [KeyError]; both leave the ledger alone;
+    [decref 2] releases a reference; with the bound lifted the conjunction
+    is node 4 and is taken *)
+Theorem C06_ledger_ops_full_def :
+  ledger_ops_full =
+  [OConfigure (Some true);
+   OVar 0; OIncref 2; OVar 1; OIncref 3;
+   OSetMaxNodes (Some 4%positive);
+   OApply "and" 2 (Some 3%Z) None; OIncref 4; ODecref 2;
+   OSetMaxNodes None;
+   OApply "and" 2 (Some 3%Z) None; OIncref 4].
+Proof. exact eq_refl. Qed.
+
+Example C06_ledger_hypotheses_full_hold :
+  hist_okD (fst (step world_empty 0 (ONew ledger_levels))) 0 ledger_ops_full.
+Proof. exact ledger_ops_full_ok. Qed.
+
+Example C06_ledger_example_full_outs :
+  outs world_empty 0 (ONew ledger_levels :: ledger_ops_full) =
+  [Ok VU; Ok (VB false); Ok (VZ 2); Ok VU; Ok (VZ 3); Ok VU;
+   Ok VU; Err ERuntime; Err EKey; Ok VU;
+   Ok VU; Ok (VZ 4); Ok VU].
+Proof. by vm_compute. Qed.
+
+(** (node, counter, in-degree, folded ledger, successful increfs, effective
+    decrefs) *)
+Example C06_ledger_example_full_table :
+  let ops := ONew ledger_levels :: ledger_ops_full in
+  let w1 := fst (step world_empty 0 (ONew ledger_levels)) in
+  let sF := world_get (Total.run world_empty 0 ops) 0 in
+  (fun '(u, c) => (u, c, indeg (succ sF) u, ledger_hist world_empty 0 ops (fun _ => 0) u,
+                   increfs w1 0 ledger_ops_full u, decrefs w1 0 ledger_ops_full u))
+    <$> map_to_list (refc sF) =
+  [(1%positive, 6, 5, 1, 0, 0); (2%positive, 0, 0, 0, 1, 1);
+   (4%positive, 1, 0, 1, 1, 0); (3%positive, 2, 1, 1, 1, 0)].
+Proof. by vm_compute. Qed.
+
+Example C06_ledger_example_full :
+  let ops := ONew ledger_levels :: ledger_ops_full in
+  let sF := world_get (Total.run world_empty 0 ops) 0 in
+  Counts sF (ledger_hist world_empty 0 ops (fun _ => 0)).
+Proof. exact ledger_example_full. Qed.
+Print Assumptions C06_ledger_example_full.
 
 (** the whole alphabet, two managers: explicit reorderings (one rejected),
     [copy_bdd] into manager 1, a query, the release of every reference of
